@@ -11,12 +11,12 @@ def classify(case_line):
     return None
 
 CFG = dict(
-    imports=["From Verif.C03 Require Import Model Spec.", "Open Scope N_scope."],
-    checker="check_case",
-    n=dict(quick=240, thorough=12000),
+    imports=["From Verif.Common Require Import Labels.", "From Verif.C03 Require Import Model Spec Pipe.", "Open Scope N_scope."],
+    checker="check_acase",
+    n=dict(quick=200, thorough=12000),
     shard=30,
     classify=classify,
-    rule="histories (10-45 ops) on the real PolicyResolver+PolicySorter over 3-6 policy keys (same name in different "
+    rule="3/4 of the cases (stream:random/prefix-names...): histories (10-45 ops) on the real PolicyResolver+PolicySorter over 3-6 policy keys (same name in different "
          "namespaces/kinds), 4 tier names (+ a tier that never exists, + empty tier), 2-4 local endpoints (WEPs and a HEP): "
          "OnPolicyMatch / OnPolicyMatchStopped, policy updates (orders unset or 6 values incl. negative and fractional, "
          "untracked/preDNAT/applyOnForward, Types in 8 spellings) and deletes, tier updates and deletes, endpoint "
@@ -24,7 +24,13 @@ CFG = dict(
          "upstream alternation contract, 1/6 are unconstrained; 1/4 contain the directed pattern match/unmatch/flush/"
          "update-while-inactive/match; 1/8 use names that extend one another by '-' or '.'; 3/16 end with the pattern "
          "'policy names tier T while T does not exist (next to a policy of a never-existing tier), flush, T created "
-         "with no order and no default action'.  Observed: what every Flush "
+         "with no order and no default action'.  1/4 of the cases (stream:pipeline): datastore-level histories through the real "
+         "ActiveRulesCalculator (+ its label inheritance index) registered ahead of the real PolicyResolver: 2-3 local "
+         "endpoints with 0-2 own labels and 0-3 profile ids (re-ordered / first one dropped / one inserted in front, keeping "
+         "the others), 3 profiles whose label resources arrive late, change, are deleted and re-created, policies with 9 "
+         "selector shapes over inherited labels (has, !has, ==, !=, in, &&, ||), tiers; half of them contain the directed "
+         "pattern 'endpoint references a profile with unknown labels, profile kept at another index, labels arrive'. "
+         "Observed: what every Flush "
          "hands to OnEndpointTierUpdate (tier name, order, default action, ordered policies with order/flags/tier) and "
          "the real tierInfoToProtoTierInfo of every emitted list.  non-trivial = some non-empty tier list was emitted "
          "and (a match started and stopped between two flushes, or some emitted tier held >= 2 policies); distinct by ops",
@@ -32,7 +38,7 @@ CFG = dict(
              "hand-written model coq/theories/C03/Model.v tied to felix/calc by this correspondence run",
              "Go driver harness/C03 (overlay build, tag verif; one add-only shim exporting tierInfoToProtoTierInfo)",
              "google/btree behaves as a sorted sequence searched with its less function"],
-    assumptions=["upstream match callbacks report exactly the (policy, endpoint) pairs whose selector matches the effective labels (C07)",
+    assumptions=["upstream model (Pipe.translate): the label index reports exactly the difference of the match relation per datastore event (C07 c07_index_exact/c07_alternation; re-checked against the real ActiveRulesCalculator+InheritIndex by the pipeline stream on every run)", "selector text -> AST table of the driver (9 shapes; the parser is C06's subject)",
                  "float64 orders are compared only; NaN/+-Inf orders are rejected upstream; modelled as option Z",
                  "policy key components contain no '/' (validated names) - needed only for the pinned joined-string tie-break",
                  "strings.EqualFold classification of policy Types is done by the driver"],
